@@ -26,3 +26,8 @@ Check (C12_partition_partitioned : forall k ops outs s key,
   pclosing_kind k -> run (init k) ops = (outs, s) ->
   of_key key (concat (all_windows outs)) ++ pbuffered key s = of_key key (arrivals ops)).
 Print Assumptions C12_partition_partitioned.
+
+Check (C12_session_close : forall g ops outs s,
+  run (init (KSession g)) ops = (outs, s) ->
+  Forall (closed_by_gap g) (add_closings ops outs)).
+Print Assumptions C12_session_close.
